@@ -544,7 +544,6 @@ func lastLines(s string, n int) string {
 }
 
 func c33Worker(s evid.ShardInfo, r *evid.Run, thorough bool) {
-	defer startProf()()
 	debug.SetGCPercent(800)
 	w, err := buildC33World()
 	if err != nil {
